@@ -18,7 +18,8 @@ RULE = ("exhaustive matrix: 8 public mutators (add_block, remove_block, replace_
         "(length<=15) of allow_write/enter/exit/mutators/readers; observed per call: raised?, file sha-256 changed?, "
         "handler.closed after implicit contexts; non-trivial = trace with a mutator in >=2 different modes; distinct by trace")
 ASSUMPTIONS = ["private flags are not compared, only their consequences; exception classes are not compared (the property says 'raises')",
-               "OS-level handle state beyond handler.closed of the current handle is outside the model (the handle an outer `with` opened is dropped, not closed, by a nested __enter__)"]
+               "OS-level handle state beyond handler.closed of the current handle is outside the model (the handle an outer `with` opened is dropped, not closed, by a nested __enter__)",
+               "readers that need attributes of a first __enter__ (==, len) are not asked on an object whose only entry so far was interrupted (it has some of those attributes and not others; the model has one flag)"]
 
 # (name, provides its own context when outside one, needs attributes that exist only after a first __enter__)
 READERS = [(n, True, False) for n in ["blocks", "get_block_type", "get_block_index", "getitem", "data3D", "force_and_torque",
@@ -200,6 +201,7 @@ class Trace:
                 bb.TdfEntry._build = staticmethod(orig)
             if injected:
                 self.in_ctx = self.in_write = self.armed = False
+                self.half_entered = not self.entered_once      # the header attributes exist, the table does not: see the interleavings
                 cmd = [Sym("mode.op"), Sym("enter-interrupted")]
             else:                       # the hook was not reached: an ordinary context entry happened
                 self.in_ctx, self.in_write, self.entered_once, self.entered_explicitly = True, self.armed, True, True
@@ -420,6 +422,11 @@ def run(ctx):
                         tr.do(("enter",))           # (also while a context is open: nested `with` on one object)
                 elif r < 0.62:
                     rname, impl, needs = rng.choice(READERS)
+                    if needs and getattr(tr, "half_entered", False) and not tr.entered_once:
+                        # an object whose ONLY entry so far was interrupted has some of the attributes `==` and `len` need and not
+                        # others (which ones depends on where the interrupt fell): the model has one flag for "has been entered";
+                        # this corner of the READERS is left out (nothing in C08 depends on it: readers never change bytes)
+                        rname, impl, needs = READERS[0]
                     tr.do(("read", rname, impl, needs))
                 else:
                     mname = rng.choice(MUTATORS)
